@@ -15,7 +15,34 @@ package quic
 // position dependent content is cut into segments over a small offset lattice
 // (cells on both sides of the 128-byte copy threshold) and delivered reordered,
 // duplicated, re-split and with the FIN anywhere consistent. Adversarial
-// segments live in a separate scenario class (Adv).
+// segments live in a separate scenario class (Adv); after the expected
+// transport error the history ends.
+//
+// Oracle: everything Read/Peek/Pop/GetCryptoData returns is exactly the next
+// bytes of the underlying string (received, contiguous, once); io.EOF exactly
+// at the final size and only with a FIN; after CancelRead / RESET_STREAM the
+// StreamError of whichever came first; RESET_STREAM_AT: no reset error before
+// the reliable size was delivered; a blocked call returns as soon as the model
+// says it can (data, FIN, reset, cancel, shutdown, deadline on the bubble
+// clock); after every history the network heals and the reader must see all
+// bytes and the end of the stream.
+//
+// Buffer discipline ("never recycled while bytes are undelivered, never
+// twice"): sorter class - explicit callbacks, poisoned (0xEE) on release,
+// single release asserted, popped data re-verified until the consumer lets go;
+// stream class - see "stream frame pool discipline" below (sync.Pool drained
+// after every step, released frames scribbled at once, double Put detected by
+// identity); crypto class - cryptoStream passes nil callbacks and owns the
+// parser-allocated buffers for good, so only the byte oracle applies.
+//
+// Known behaviour of the unchanged tree that contradicts the documented
+// CancelRead / reset semantics (own signatures, see rcvStreamRun.blockCtx):
+//   - CancelRead after a RESET_STREAM_AT whose reliable part is still
+//     outstanding does not wake a blocked Read/Peek (cancelReadImpl returns
+//     before signalRead when cancelledRemotely is set)
+//   - a later RESET_STREAM(_AT) that lowers the reliable size does not wake a
+//     blocked Read/Peek (handleResetStreamFrameImpl returns before signalRead
+//     when cancelledRemotely is already set)
 
 import (
 	"errors"
@@ -689,10 +716,12 @@ type rcvSender struct {
 	completed int
 }
 
-func (s *rcvSender) onHasConnectionData()                                            { s.conn = true }
-func (s *rcvSender) onHasStreamData(protocol.StreamID, *SendStream)                  {}
-func (s *rcvSender) onHasStreamControlFrame(protocol.StreamID, streamControlFrameGetter) { s.ctrl = true }
-func (s *rcvSender) onStreamCompleted(protocol.StreamID)                             { s.completed++ }
+func (s *rcvSender) onHasConnectionData()                           { s.conn = true }
+func (s *rcvSender) onHasStreamData(protocol.StreamID, *SendStream) {}
+func (s *rcvSender) onHasStreamControlFrame(protocol.StreamID, streamControlFrameGetter) {
+	s.ctrl = true
+}
+func (s *rcvSender) onStreamCompleted(protocol.StreamID) { s.completed++ }
 
 type rcvReq struct {
 	peek bool
